@@ -265,8 +265,7 @@ _text("unsupported.protocol", pl_protocol, None, answers=[ans_delivery_receipt],
 _text("unsupported.unknown-field", pl_unknown_field, None, answers=[ans_delivery_receipt], c07="unsupported")
 _text("unsupported.empty", pl_empty, None, answers=[ans_delivery_receipt], c07="unsupported")
 _text("unsupported.skdm+protocol", pl_skdm_protocol, None, answers=[ans_delivery_receipt], c07="unsupported",
-      key="message payload carrying sender-key distribution together with content the library cannot present",
-      note="known finding: silently dropped")
+      note="retry resend of content the library cannot present (repaired finding: used to be dropped silently)")
 
 MEDIA = [("image", pl_image, "ImageDownloadableMediaMessageProtocolEntity"),
          ("sticker", pl_sticker, "StickerDownloadableMediaMessageProtocolEntity"),
@@ -282,6 +281,21 @@ for _mt, _pl, _up in MEDIA:
     def _g(r, mt=_mt, pl=_pl):
         return message_node(r, "media", pl(r), mt)
     kind("recv.message.media." + _mt, "recv", module="media", up=_up)(_g)
+
+    def _g2(r, mt=_mt, pl=_pl):
+        # what a group sender produces when it serves a retry receipt: the key distribution merged into the payload
+        m = pl(r)
+        m.sender_key_distribution_message.group_id = rgjid(r)
+        m.sender_key_distribution_message.axolotl_sender_key_distribution_message = r.randbytes(40)
+        return message_node(r, "media", m, mt, group=True)
+    kind("recv.message.media." + _mt + ".skdm+media", "recv", module="media", up=_up,
+         note="retry resend of a group media message")(_g2)
+
+    def _g3(r, mt=_mt):
+        # the pkmsg part of a first group media message: nothing but the key distribution, mediatype attribute present
+        return message_node(r, "media", pl_skdm_only(r), mt, group=True)
+    kind("recv.message.media." + _mt + ".skdm-only", "recv", module="media", up=None, c07="skdm-only",
+         note="pure key distribution: nothing by design")(_g3)
 
 
 @kind("recv.message.media.unsupported", "recv", module="media", up=None, answers=[ans_read_receipt],
